@@ -16,6 +16,7 @@
   * `sizeUnits_table`, `parseSize_decimal`, `parseSize_suffix`.
 -/
 import MitmVerif.Model.C07
+import MitmVerif.Model.C07_Reader
 namespace MitmVerif.Props.C07
 open MitmVerif MitmVerif.C07
 
@@ -531,6 +532,283 @@ example : KnownTooLarge { limit := some 3, thr := none, store := false }
 -- relayed_exact_any_chunking: a late switch that ends done
 example : (run { limit := none, thr := some 2, store := false } false .none (fun d => .one d) init
     (.headers .unknown false :: ([[1, 2], [3], [4]].map Ev.data ++ [Ev.eom]))).1.phase = .done := by decide
+
+/-! ### the body readers: segmentation independence (deepening round 3) -/
+
+private theorem feed_append (s : RSt) (a b : Bytes) :
+    feed s (a ++ b) = ((feed (feed s a).1 b).1, (feed s a).2 ++ (feed (feed s a).1 b).2) := by
+  induction a generalizing s with
+  | nil => simp [feed]
+  | cons c cs ih => simp only [List.cons_append, feed, ih, List.append_assoc]
+
+theorem reader_lawful : readerInc.Lawful := ⟨fun _ => rfl, feed_append⟩
+
+/-- **reader_segmentation_independent.** However the wire bytes are cut into segments, the body readers end in the same
+    state and emit the same items (body bytes, chunk boundaries, end of message / protocol error) in the same order. -/
+theorem reader_segmentation_independent (s : RSt) (a b : List Bytes) (h : a.flatten = b.flatten) :
+    readerInc.feedAll s a = readerInc.feedAll s b :=
+  Incremental.seg_independent' readerInc reader_lawful s a b h
+
+/-- the bytes HttpStream is meant to receive: everything before the end of the message (or a reader failure) -/
+def bodyOf : List Item → Bytes
+  | [] => []
+  | .byte b :: r => b :: bodyOf r
+  | .cut :: r => bodyOf r
+  | _ :: _ => []
+
+def hasEnd : List Item → Bool
+  | [] => false
+  | .byte _ :: r => hasEnd r
+  | .cut :: r => hasEnd r
+  | _ :: _ => true
+
+/-- the bytes a list of events carries up to the end of the message -/
+def recvd : List Ev → Bytes
+  | [] => []
+  | .data b :: r => b ++ recvd r
+  | .eom :: _ => []
+  | .headers _ _ :: r => recvd r
+
+/-- events of feeding the segments one by one (what read_body hands to HttpStream, delivery after delivery) -/
+def segEvents (s : RSt) : List Bytes → List Ev
+  | [] => []
+  | seg :: rest => (eventsOf (feed s seg).2).1 ++ segEvents (feed s seg).1 rest
+
+private theorem feed_stop (seg : Bytes) : feed .stop seg = (.stop, []) := by
+  induction seg with
+  | nil => rfl
+  | cons c cs ih => simp [feed, stepByte, ih]
+
+private theorem step_end (s : RSt) (c : UInt8) (h : hasEnd (stepByte s c).2 = true) : (stepByte s c).1 = .stop := by
+  cases s with
+  | cl rem => simp only [stepByte] at h ⊢; split <;> simp_all [hasEnd]
+  | untilEof => simp [stepByte, hasEnd] at h
+  | data rem => simp only [stepByte] at h ⊢; split <;> simp_all [hasEnd]
+  | dataEnd k => simp only [stepByte] at h ⊢; split <;> split <;> simp_all [hasEnd]
+  | size l =>
+    simp only [stepByte] at h ⊢
+    split
+    · split
+      · rfl
+      · split <;> simp_all [hasEnd]
+    · split <;> simp_all [hasEnd]
+  | trailer cr => simp only [stepByte] at h ⊢; split <;> (try split) <;> (try split) <;> simp_all [hasEnd]
+  | stop => rfl
+
+private theorem hasEnd_append (a b : List Item) : hasEnd (a ++ b) = (hasEnd a || hasEnd b) := by
+  induction a with
+  | nil => simp [hasEnd]
+  | cons x xs ih => cases x <;> simp [hasEnd, ih]
+
+private theorem feed_end (s : RSt) (seg : Bytes) (h : hasEnd (feed s seg).2 = true) : (feed s seg).1 = .stop := by
+  induction seg generalizing s with
+  | nil => simp [feed, hasEnd] at h
+  | cons c cs ih =>
+    simp only [feed] at h ⊢
+    rw [hasEnd_append] at h
+    by_cases h1 : hasEnd (stepByte s c).2 = true
+    · rw [step_end s c h1, feed_stop]
+    · simp only [h1, Bool.false_or] at h
+      exact ih _ h
+
+private theorem bodyOf_append_end (a b : List Item) (h : hasEnd a = true) : bodyOf (a ++ b) = bodyOf a := by
+  induction a with
+  | nil => simp [hasEnd] at h
+  | cons x xs ih =>
+    cases x with
+    | byte c => simp only [hasEnd] at h; simp [bodyOf, ih h]
+    | cut => simp only [hasEnd] at h; simp [bodyOf, ih h]
+    | eom => simp [bodyOf]
+    | err => simp [bodyOf]
+    | trailer => simp [bodyOf]
+
+private theorem bodyOf_append_open (a b : List Item) (h : hasEnd a = false) : bodyOf (a ++ b) = bodyOf a ++ bodyOf b := by
+  induction a with
+  | nil => simp [bodyOf]
+  | cons x xs ih =>
+    cases x with
+    | byte c => simp only [hasEnd] at h; simp [bodyOf, ih h]
+    | cut => simp only [hasEnd] at h; simp [bodyOf, ih h]
+    | eom => simp [hasEnd] at h
+    | err => simp [hasEnd] at h
+    | trailer => simp [hasEnd] at h
+
+/-- one read_body call: its events carry exactly the body bytes of its items -/
+private theorem eventsGo_recvd (acc : Bytes) (items : List Item) :
+    recvd (eventsGo acc items).1 = acc ++ bodyOf items := by
+  induction items generalizing acc with
+  | nil => by_cases ha : acc = [] <;> simp [eventsGo, ha, recvd, bodyOf]
+  | cons x xs ih =>
+    cases x with
+    | byte b => simp only [eventsGo, bodyOf]; rw [ih]; simp
+    | cut =>
+      by_cases ha : acc = []
+      · simp only [eventsGo, bodyOf, ha, if_true, List.nil_append]; rw [ih]; simp
+      · simp only [eventsGo, bodyOf, ha, if_false, List.cons_append, List.nil_append, recvd]; rw [ih]; simp
+    | eom => by_cases ha : acc = [] <;> simp [eventsGo, bodyOf, ha, recvd]
+    | err => by_cases ha : acc = [] <;> simp [eventsGo, bodyOf, ha, recvd]
+    | trailer => by_cases ha : acc = [] <;> simp [eventsGo, bodyOf, ha, recvd]
+
+/-- ... and as long as the message has not ended, the following deliveries continue it -/
+private theorem eventsGo_recvd_open (acc : Bytes) (items : List Item) (rest : List Ev) (h : hasEnd items = false) :
+    recvd ((eventsGo acc items).1 ++ rest) = acc ++ bodyOf items ++ recvd rest := by
+  induction items generalizing acc with
+  | nil => by_cases ha : acc = [] <;> simp [eventsGo, ha, recvd, bodyOf]
+  | cons x xs ih =>
+    cases x with
+    | byte b => simp only [eventsGo, bodyOf]; simp only [hasEnd] at h; rw [ih _ h]; simp
+    | cut =>
+      simp only [hasEnd] at h
+      by_cases ha : acc = []
+      · simp only [eventsGo, bodyOf, ha, if_true, List.nil_append]; rw [ih _ h]; simp
+      · simp only [eventsGo, bodyOf, ha, if_false, List.cons_append, List.nil_append, recvd]; rw [ih _ h]; simp
+    | eom => simp [hasEnd] at h
+    | err => simp [hasEnd] at h
+    | trailer => simp [hasEnd] at h
+
+private theorem segEvents_stop (segs : List Bytes) : segEvents .stop segs = [] := by
+  induction segs with
+  | nil => rfl
+  | cons seg rest ih => simp [segEvents, feed_stop, eventsOf, eventsGo, ih]
+
+/-- **wire_events_carry_body.** Whatever the segmentation, the events HttpStream is handed delivery after delivery
+    carry exactly the body bytes the readers extract from the concatenated wire bytes. -/
+theorem wire_events_carry_body (s : RSt) (segs : List Bytes) :
+    recvd (segEvents s segs) = bodyOf (feed s segs.flatten).2 := by
+  induction segs generalizing s with
+  | nil => simp [segEvents, recvd, feed, bodyOf]
+  | cons seg rest ih =>
+    simp only [segEvents, List.flatten_cons, feed_append]
+    cases he : hasEnd (feed s seg).2
+    · rw [bodyOf_append_open _ _ he]
+      rw [show (eventsOf (feed s seg).2).1 = (eventsGo [] (feed s seg).2).1 from rfl,
+        eventsGo_recvd_open [] _ _ he, ih]
+      simp
+    · rw [bodyOf_append_end _ _ he]
+      rw [feed_end s seg he, segEvents_stop, List.append_nil,
+        show (eventsOf (feed s seg).2).1 = (eventsGo [] (feed s seg).2).1 from rfl, eventsGo_recvd]
+      simp
+
+/-- **wire_body_segmentation_independent.** Two segmentations of the same wire bytes hand HttpStream the same body. -/
+theorem wire_body_segmentation_independent (s : RSt) (a b : List Bytes) (h : a.flatten = b.flatten) :
+    recvd (segEvents s a) = recvd (segEvents s b) := by
+  rw [wire_events_carry_body, wire_events_carry_body, h]
+
+/-- relay for an arbitrary event list (the shape read_body really produces: data events, the end of the message,
+    possibly more after it) -/
+private theorem relay_events (st : St) (hu : st.useF = false) (hp : st.phase = .consume ∨ st.phase = .stream)
+    (evs : List Ev) :
+    (run o resp pol f st evs).1.phase = .done →
+    (dataOf (run o resp pol f st evs).2).flatten = (if st.phase = .consume then st.buf else []) ++ recvd evs := by
+  induction evs generalizing st with
+  | nil =>
+    intro hd
+    simp only [run] at hd
+    rcases hp with hp | hp <;> rw [hp] at hd <;> cases hd
+  | cons e es ih =>
+    intro hdone
+    simp only [run] at hdone ⊢
+    cases e with
+    | headers exp endS =>
+      have hstep : step o resp pol f st (Ev.headers exp endS) = (st, []) := by
+        rcases hp with hp | hp <;> simp [step, hp]
+      rw [hstep] at hdone ⊢
+      simpa [recvd] using ih st hu hp hdone
+    | eom =>
+      rcases hp with hp | hp
+      · have hph : (step o resp pol f st Ev.eom).1.phase = .done := by simp [step, hp]
+        rw [run_done o resp pol f _ hph]
+        by_cases hb : st.buf = [] <;> simp [step, hp, hb, dataOf, recvd]
+      · have hph : (step o resp pol f st Ev.eom).1.phase = .done := by simp [step, hp, relay]
+        rw [run_done o resp pol f _ hph]
+        simp [step, hp, hu, relay, dataOf, recvd]
+    | data c =>
+      rcases hp with hp | hp
+      · cases hc : check o st.exp (st.buf ++ c)
+        · have hstep : step o resp pol f st (Ev.data c) = ({ st with buf := st.buf ++ c }, []) := by
+            simp [step, hp, hc]
+          rw [hstep] at hdone ⊢
+          have := ih { st with buf := st.buf ++ c } hu (Or.inl hp) hdone
+          simp only [List.nil_append]
+          rw [this]; simp [hp, recvd, List.append_assoc]
+        · have hstep : (step o resp pol f st (Ev.data c)).1.phase = .errored := by simp [step, hp, hc]
+          rw [run_errored o resp pol f _ hstep] at hdone
+          rw [hstep] at hdone; cases hdone
+        · by_cases hb : st.buf ++ c = []
+          · have hb' := hb
+            simp at hb'
+            have hstep : step o resp pol f st (Ev.data c) = ({ st with buf := st.buf ++ c }, []) := by
+              rw [hb] at hc
+              simp [step, hp, hc, hb'.1, hb'.2]
+            rw [hstep] at hdone ⊢
+            have := ih { st with buf := st.buf ++ c } hu (Or.inl hp) hdone
+            simp only [List.nil_append]
+            rw [this]; simp [hp, recvd, List.append_assoc]
+          · have hstep : step o resp pol f st (Ev.data c) =
+                ({ st with buf := if o.store then st.buf ++ c else [], phase := .stream, useF := false },
+                 [Out.sendHead, Out.sendData (st.buf ++ c)]) := by
+              simp [step, hp, hc, hb, relay]
+            rw [hstep] at hdone ⊢
+            have := ih { st with buf := if o.store then st.buf ++ c else [], phase := .stream, useF := false }
+              rfl (Or.inr rfl) hdone
+            rw [dataOf_append]
+            simp only [List.flatten_append]
+            rw [this]; simp [hp, dataOf, recvd, List.append_assoc]
+      · have hstep : step o resp pol f st (Ev.data c) =
+            ({ st with buf := if o.store then st.buf ++ c else st.buf }, [Out.sendData c]) := by
+          simp [step, hp, hu, relay]
+        rw [hstep] at hdone ⊢
+        have := ih { st with buf := if o.store then st.buf ++ c else st.buf } hu (Or.inr hp) hdone
+        rw [dataOf_append]
+        simp only [List.flatten_append]
+        rw [this]; simp [hp, dataOf, recvd]
+
+/-- **relayed_exact_events.** When `.stream` is not a callable: for ANY list of events after the headers — whatever way
+    the connection layer grouped the body into data events — a message that ends `done` delivered exactly the bytes
+    the events carried up to the end of the message. -/
+theorem relayed_exact_events (hpol : pol ≠ .callable) (exp : ExpSize) (endS : Bool) (evs : List Ev)
+    (hdone : (run o resp pol f init (.headers exp endS :: evs)).1.phase = .done) :
+    (dataOf (run o resp pol f init (.headers exp endS :: evs)).2).flatten = recvd evs := by
+  simp only [run] at hdone ⊢
+  have hi : init.phase = .waitHeaders := rfl
+  have hcases : (step o resp pol f init (.headers exp endS)).1.phase = .errored ∨
+      ((step o resp pol f init (.headers exp endS)).1.useF = false ∧
+       (step o resp pol f init (.headers exp endS)).1.buf = [] ∧
+       ((step o resp pol f init (.headers exp endS)).1.phase = .consume ∨
+        (step o resp pol f init (.headers exp endS)).1.phase = .stream) ∧
+       dataOf (step o resp pol f init (.headers exp endS)).2 = []) := by
+    cases endS <;> cases pol <;> cases hc : check o exp [] <;>
+      simp [step, hi, hc, init, dataOf, abortOuts] at hpol ⊢
+  rcases hcases with herr | ⟨hu, hb, hp, hd⟩
+  · rw [run_errored o resp pol f _ herr] at hdone
+    rw [herr] at hdone; cases hdone
+  · have := relay_events o resp pol f _ hu hp evs hdone
+    rw [dataOf_append, hd]
+    simp only [List.nil_append]
+    rw [this, hb]; simp
+
+/-- **wire_relay_segmentation_independent.** The same wire bytes cut into segments in two different ways (`a`, `b`),
+    read by the body readers from state `s` and handed to HttpStream delivery after delivery: if both messages end
+    `done` (no callable), the peer was sent exactly the same bytes — the body the readers extract from the wire. -/
+theorem wire_relay_segmentation_independent (hpol : pol ≠ .callable) (exp : ExpSize) (endS : Bool) (s : RSt)
+    (a b : List Bytes) (hsame : a.flatten = b.flatten)
+    (ha : (run o resp pol f init (.headers exp endS :: segEvents s a)).1.phase = .done)
+    (hb : (run o resp pol f init (.headers exp endS :: segEvents s b)).1.phase = .done) :
+    (dataOf (run o resp pol f init (.headers exp endS :: segEvents s a)).2).flatten =
+      (dataOf (run o resp pol f init (.headers exp endS :: segEvents s b)).2).flatten ∧
+    (dataOf (run o resp pol f init (.headers exp endS :: segEvents s a)).2).flatten = bodyOf (feed s a.flatten).2 := by
+  rw [relayed_exact_events o resp pol f hpol exp endS _ ha, relayed_exact_events o resp pol f hpol exp endS _ hb,
+    wire_body_segmentation_independent s a b hsame, wire_events_carry_body, hsame]
+  exact ⟨rfl, rfl⟩
+
+-- non-vacuity: a chunked body cut in the middle of a size line and of the data; both runs end done, late switch
+example : (run { limit := none, thr := some 2, store := false } false .none (fun d => .one d) init
+    (.headers .unknown false :: segEvents (.size {}) [[0x33, 0x0d], [0x0a, 0x61], [0x62, 0x63, 0x0d, 0x0a, 0x30, 0x0d, 0x0a, 0x0d, 0x0a]])).1.phase
+    = .done := by decide
+example : segEvents (.size {}) [[0x33, 0x0d], [0x0a, 0x61], [0x62, 0x63, 0x0d, 0x0a, 0x30, 0x0d, 0x0a, 0x0d, 0x0a]]
+    = [.data [0x61], .data [0x62, 0x63], .eom] := by decide
+-- the reader does refuse: a chunk footer that is not CRLF
+example : (feed (.size {}) [0x31, 0x0d, 0x0a, 0x61, 0x58]).2 = [.byte 0x61, .cut, .err] := by decide
 
 /-! ### parse_size -/
 
